@@ -145,9 +145,33 @@ def part_a(sh: Shard, seed, n):
         shell.facade.spa = spa
         sh.evaluations += 1
         wit = {"part": "a", "block_style": style, "name": name, "platform": spa.pack, "en": en, "co": co, "cfg_log": (spa.config_version, spa.log_version), "case": f"{seed}:{i}"}
+        # every fifth snapshot is taken while the connection is busy: a record of ANOTHER geckolib logger
+        # (the socket thread reporting a changed value) lands between two of the snapshot's own lines
+        class _Interleave(logging.Filter):
+            def __init__(self):
+                super().__init__()
+                self.n = 0
+
+            def filter(self, record):
+                self.n += 1
+                if self.n == self.at:
+                    logging.getLogger("geckolib.driver.accessor").info("Value for %s changed from %s to %s", "UdP1", "OFF", "HI")
+                    logging.getLogger("geckolib.spa").info("Snap to it: Config version looks fine")
+                return True
+
+        flt = None
+        if i % 5 == 3:
+            flt = _Interleave()
+            flt.at = r.randrange(2, 12)
+            logging.getLogger("geckolib.utils.shell").addFilter(flt)
+            sh.count("snapshots_with_foreign_log_records_in_between")
         try:
-            with Capture(path, logging.INFO):
-                shell.do_snapshot(name)
+            try:
+                with Capture(path, logging.INFO):
+                    shell.do_snapshot(name)
+            finally:
+                if flt is not None:
+                    logging.getLogger("geckolib.utils.shell").removeFilter(flt)
             snaps, dbg_problem = parse_both_ways(GeckoSnapshot, path)
             if dbg_problem:
                 sh.violation("C19:a:logging-dependent", "shell snapshot: " + dbg_problem, wit)
